@@ -45,6 +45,12 @@ def gen(ctx):
         withs = [ast.unparse(x.items[0].context_expr) for x in ast.walk(f) if isinstance(x, ast.With)]
         if withs != ["_mutex"]:
             raise T.Untranslatable(f"UNTRANSLATABLE: {fn} no longer runs under the module mutex: {withs}")
+        # one critical section per call: every read and write of the running total is inside the with-block
+        wnode = next(x for x in ast.walk(f) if isinstance(x, ast.With))
+        inside = {id(x) for x in ast.walk(wnode)}
+        outside = [x.lineno for x in ast.walk(f) if isinstance(x, ast.Name) and x.id == "_reserved_bytes" and id(x) not in inside]
+        if outside:
+            raise T.Untranslatable(f"UNTRANSLATABLE: {fn} touches _reserved_bytes outside the mutex (lines {outside})")
     # re-creating the node's I/O object must keep the running total of the transfers in flight
     init = ast.unparse(T.find_func(tree, q + "__init__"))
     if "_reserved_bytes.setdefault(node.name, 0)" not in init or "with _mutex:" not in init:
@@ -287,13 +293,132 @@ def explore(ctx):
     bad = core.run_cases(ctx, "history", "Corr.C14", "case", "check", terms, shard=200, extra_imports=("Model.Reserve",))
     for i in bad[:3]:
         ctx.broke("correspondence", f"reservation history: model and implementation differ: {logs[i]}")
+    explore_concurrent(ctx, 40 if ctx.quick() else 1500)
     rc = direct_calls(ctx, ctx.rng, base, 300 if ctx.quick() else 5000)
     bad = core.run_cases(ctx, "reserve", "Corr.C14", "rcase", "rcheck", rc, shard=1000, extra_imports=("Model.Reserve",))
     for i in bad[:3]:
         ctx.broke("correspondence", f"reserve_bytes: model and implementation differ: {rc[i]}")
 
 
+# ---- concurrent calls under the deterministic scheduler -----------------------------------------------------------
+def run_concurrent(programs, bavail, choose):
+    """threads call the real reserve_bytes / release_bytes of one node; the module mutex is the scheduler's lock and the
+    running-total dict yields at every read and write, so an update outside the critical section can be interleaved"""
+    import alpenhorn.io.default as D
+    from vf.harness import sched
+
+    S = sched.Sched(choose, max_steps=20000)
+    th, mono, slp = sched.fakes(S)
+
+    class YDict(dict):
+        def __getitem__(self, k):
+            S.yield_()
+            return dict.__getitem__(self, k)
+
+        def __setitem__(self, k, v):
+            S.yield_()
+            dict.__setitem__(self, k, v)
+
+    class N:
+        name = "n"
+
+    saved = (D._mutex, D._reserved_bytes)
+    D._mutex, D._reserved_bytes = th.Lock(), YDict(n=0)
+    try:
+        io = object.__new__(D.DefaultNodeIO)
+        io.node = N()
+        io.bytes_avail = lambda fast=False: bavail
+        log = []
+
+        def make(t, prog):
+            def f():
+                held = []
+                for op in prog:
+                    if op[0] == "reserve":
+                        ok = io.reserve_bytes(op[1])
+                        log.append((t, "reserve", op[1], ok))
+                        if ok:
+                            held.append(op[1])
+                    elif op[0] == "check":
+                        log.append((t, "check", op[1], io.reserve_bytes(op[1], check_only=True)))
+                    elif op[0] == "release" and held:
+                        sz = held.pop(0)
+                        log.append((t, "release-begin", sz, None))
+                        try:
+                            io.release_bytes(sz)
+                            log.append((t, "release", sz, True))
+                        except ValueError as e:
+                            log.append((t, "release", sz, repr(e)))
+                return held
+            return f
+
+        for t, prog in programs.items():
+            S.spawn(t, make(t, prog))
+        res, stuck = S.run()
+        final = dict.__getitem__(D._reserved_bytes, "n")
+        return log, res, stuck, final, S.trace, S.abort
+    finally:
+        D._mutex, D._reserved_bytes = saved
+
+
+def explore_concurrent(ctx, cap):
+    from vf.harness import sched
+
+    rng = ctx.rng
+    plans = [({"A": [("reserve", 10), ("release",)], "B": [("reserve", 7), ("release",)]}, None),
+             ({"A": [("reserve", 10), ("release",)], "B": [("reserve", 10), ("release",)]}, 40),
+             ({"A": [("reserve", 10), ("release",)], "B": [("reserve", 10), ("release",)]}, 30),
+             ({"A": [("reserve", 5), ("reserve", 3), ("release",), ("release",)], "B": [("check", 4), ("reserve", 4), ("release",)]}, 100)]
+    for _ in range(6):
+        progs = {}
+        for t in "ABC"[: rng.randint(2, 3)]:
+            n = rng.randint(1, 2)
+            progs[t] = [("reserve", rng.choice([1, 5, 10])) for _ in range(n)] + ([("check", 5)] if rng.random() < 0.3 else []) + [("release",)] * n
+        plans.append((progs, rng.choice([None, 20, 30, 64])))
+    for programs, bavail in plans:
+        ex = sched.Explorer()
+        n = 0
+        while n < cap and not ex.done:
+            if n % 2 == 0:
+                r2 = __import__("random").Random(rng.getrandbits(32))
+                choose = lambda k, r2=r2: r2.randrange(k)  # noqa: E731
+                log, res, stuck, final, trace, aborted = run_concurrent(programs, bavail, choose)
+            else:
+                log, res, stuck, final, trace, aborted = run_concurrent(programs, bavail, ex.chooser())
+                ex.advance(trace)
+            n += 1
+            ctx.count("concurrent")
+            rp = {"family": "concurrent", "programs": {t: [list(o) for o in p] for t, p in programs.items()}, "bavail": bavail, "schedule": [c for c, _ in trace][:400], "log": [list(l) for l in log]}
+            if any(c for c, _ in trace):
+                ctx.distinct_add(("concurrent", repr(programs), bavail, tuple(c for c, _ in trace)))
+            if stuck or aborted:
+                ctx.fail("C14:concurrent-stuck", f"concurrent reserve/release: threads {stuck} never returned", rp)
+                break
+            errs = [l for l in log if l[1] == "release" and l[3] is not True] + [r for r in res.values() if r and r[0] == "exc"]
+            if errs:
+                ctx.fail("C14:concurrent-release-refused", f"a release of bytes that were reserved failed: {errs[:2]}", rp)
+                break
+            held = sum(sum(r[1]) for r in res.values() if r and r[0] == "ok")
+            if final != 2 * held:
+                ctx.fail("C14:concurrent-lost-update", f"after all threads returned the node's reserved total is {final}, the transfers still in flight hold {2 * held}", rp)
+                break
+            # never more than the free space promised at once: successes completed minus releases begun is a lower bound of what is held
+            out = 0
+            over = None
+            for l in log:
+                if l[1] == "reserve" and l[3]:
+                    out += l[2]
+                    if bavail is not None and 2 * out > bavail:
+                        over = (out, l)
+                elif l[1] == "release-begin":
+                    out -= l[2]
+            if over:
+                ctx.fail("C14:concurrent-overcommit", f"reservations of {over[0]} bytes (x2) are held at once on a filesystem with {bavail} free: {over[1]}", rp)
+                break
+
+
 def search(ctx):
+    explore_concurrent(ctx, 400)
     for i in range(600):
         run_history(ctx, ctx.rng, ctx.tmp(), ctx.rng.randint(3, 14))
         if ctx.failing:
